@@ -7,7 +7,39 @@
 //! no position, price known / unknown), then issues cancel-orders / close-positions commands with
 //! every filter kind, frequently twice in a row, and finally observes all positions and orders with
 //! unfiltered commands.
-use vh::{engine_proto::run_case, *};
+use barter::{
+    engine::{
+        Engine, Processor,
+        clock::HistoricalClock,
+        execution_tx::MultiExchangeTxMap,
+        state::trading::TradingState,
+    },
+    execution::{builder::ExecutionHandles, request::ExecutionRequest},
+    risk::DefaultRiskManager,
+    strategy::DefaultStrategy,
+    system::{System, SystemAuxillaryHandles},
+};
+use barter_instrument::{
+    Underlying,
+    index::IndexedInstruments,
+    instrument::{
+        Instrument, InstrumentIndex,
+        kind::{
+            InstrumentKind,
+            future::FutureContract,
+            option::{OptionContract, OptionExercise, OptionKind},
+            perpetual::PerpetualContract,
+        },
+        quote::InstrumentQuoteAsset,
+    },
+};
+use barter_integration::channel::{UnboundedRx, UnboundedTx, mpsc_unbounded};
+use rust_decimal::Decimal;
+use vh::{
+    engine_proto::{Built2, World, build_event, event_digest, init_world, observe_state, parse_filter, parse_reqs, run_event},
+    engine_util::*,
+    *,
+};
 
 type Def = (usize, usize, usize);
 
@@ -111,12 +143,19 @@ fn gen_filter(rng: &mut Rng, nex: usize, nins: usize, defs: &[Def]) -> String {
 ///  3 positions closed again (`flat`) before the command, some re-opened on the other side;
 ///  4 a tracked order whose client order id equals the id the close-position order will get (9000+i);
 ///  5 the same command three times in a row; market price 0.
-fn gen_case(rng: &mut Rng, out: &mut Out, tier: &str, dom: Option<u64>) {
+///
+/// `cfg`: `Some(rng)` = configuration-shape family: a `cfg K <kinds> V <direct|system>` line (drawn from
+/// that separate stream) precedes `init`, and half of the cases wire unhealthy / closed / missing links.
+fn gen_case(rng: &mut Rng, out: &mut Out, tier: &str, dom: Option<u64>, mut cfg: Option<&mut Rng>) {
     let nex = match dom {
         Some(2) => *rng.pick(&[1usize, 1, 4, 5]),
         _ => rng.range(2, 3) as usize,
     };
-    let links: String = if rng.chance(75) {
+    let all_healthy = match cfg.as_mut() {
+        Some(c) => c.chance(50),
+        None => rng.chance(75),
+    };
+    let links: String = if all_healthy {
         "H".repeat(nex)
     } else {
         (0..nex)
@@ -149,6 +188,16 @@ fn gen_case(rng: &mut Rng, out: &mut Out, tier: &str, dom: Option<u64>) {
     // (close-position requests are printed in the engine's iteration order)
     let nins = defs.len();
     let trading = if rng.chance(30) { "on" } else { "off" };
+    if let Some(c) = cfg.as_mut() {
+        // kinds: all spot (system path only), one family for all, or mixed per instrument
+        let kinds: String = match c.below(4) {
+            0 => "S".repeat(nins),
+            1 => c.pick(&["P", "p", "F", "O"]).repeat(nins),
+            _ => (0..nins).map(|_| *c.pick(&['S', 'P', 'p', 'F', 'O'])).collect(),
+        };
+        let via = if kinds.chars().all(|k| k == 'S') || c.chance(50) { "system" } else { "direct" };
+        out.line(format!("cfg K {kinds} V {via}"));
+    }
     out.line(init_line(trading, &links, &defs));
 
     // ---- state building: per-instrument op scripts, then interleaved at random
@@ -338,6 +387,233 @@ fn exhaustive(out: &mut Out) {
     }
 }
 
+// ---------------------------------------------------------------------------------------------
+// Configuration shapes (configuration-shape audit), interpreted by THIS binary before the shared
+// protocol takes over:
+//   `cfg K <letters> V <direct|system>`   before `init`
+// K: one letter per instrument of the following `init` line, in label order - how that instrument is
+//    declared to the engine: S spot, P perpetual (settled in its quote asset), p perpetual quoted in its
+//    BASE asset and settled in an asset `a5` that no underlying names, F future, O option (settled in `a5`).
+//    The engine state, the filters and both commands are the same for every kind (a position is a position).
+// V: `system` = every cancel_orders / close_positions command is ALSO issued through a real
+//    `barter::system::System` handle (`System::cancel_orders` / `System::close_positions`, which send on
+//    `feed_tx`); what arrives on the engine's feed is printed (`sysfeed <event digest>`) and compared with
+//    the command event the protocol processes (`syseq 1`).
+// Without a `cfg` line a case runs exactly as before.
+
+struct Cfg {
+    kinds: Option<Vec<char>>,
+    system: bool,
+}
+
+fn parse_cfg(toks: &[String]) -> Option<Cfg> {
+    if toks.len() != 4 || toks[0] != "K" || toks[2] != "V" {
+        return None;
+    }
+    if !toks[1].chars().all(|c| "SPpFO".contains(c)) {
+        return None;
+    }
+    let system = match toks[3].as_str() {
+        "direct" => false,
+        "system" => true,
+        _ => return None,
+    };
+    Some(Cfg { kinds: Some(toks[1].chars().collect()), system })
+}
+
+/// `engine_proto::init_world` with the instrument kinds of `kinds` (same labels, same names, same links)
+fn init_world_kinds(toks: &[String], kinds: &[char]) -> World {
+    let trading = if toks[0] == "on" { TradingState::Enabled } else { TradingState::Disabled };
+    assert_eq!(toks[1], "L");
+    let links: Vec<Link> = toks[2]
+        .chars()
+        .map(|c| match c {
+            'H' => Link::Healthy,
+            'C' => Link::Closed,
+            'U' => Link::Unhealthy,
+            _ => Link::Missing,
+        })
+        .collect();
+    assert_eq!(toks[3], "I");
+    let defs: Vec<(usize, usize, usize)> = toks[4..]
+        .iter()
+        .map(|t| {
+            let v: Vec<usize> = t.split(',').map(|x| x.parse().unwrap()).collect();
+            (v[0], v[1], v[2])
+        })
+        .collect();
+    let expiry = time_ms(86_400_000);
+    let mut builder = IndexedInstruments::builder();
+    for (k, (ex, base, quote)) in defs.iter().enumerate() {
+        let (base, quote) = (format!("a{base}"), format!("a{quote}"));
+        let other = "a5".to_string();
+        let (quote_asset, kind) = match kinds[k] {
+            'P' => (
+                InstrumentQuoteAsset::UnderlyingQuote,
+                InstrumentKind::Perpetual(PerpetualContract { contract_size: Decimal::from(10), settlement_asset: quote.clone().into() }),
+            ),
+            'p' => (
+                InstrumentQuoteAsset::UnderlyingBase,
+                InstrumentKind::Perpetual(PerpetualContract { contract_size: Decimal::new(1, 3), settlement_asset: other.into() }),
+            ),
+            'F' => (
+                InstrumentQuoteAsset::UnderlyingQuote,
+                InstrumentKind::Future(FutureContract { contract_size: Decimal::from(100), settlement_asset: quote.clone().into(), expiry }),
+            ),
+            'O' => (
+                InstrumentQuoteAsset::UnderlyingQuote,
+                InstrumentKind::Option(OptionContract {
+                    contract_size: Decimal::from(5),
+                    settlement_asset: other.into(),
+                    kind: OptionKind::Put,
+                    exercise: OptionExercise::European,
+                    expiry,
+                    strike: Decimal::from(100),
+                }),
+            ),
+            _ => (InstrumentQuoteAsset::UnderlyingQuote, InstrumentKind::Spot),
+        };
+        builder = builder.add_instrument(Instrument::new(
+            EXCHANGES[*ex],
+            format!("i{k}"),
+            format!("I{k}"),
+            Underlying::new(base, quote),
+            quote_asset,
+            kind,
+            None,
+        ));
+    }
+    let instruments = builder.build();
+    let ex_idx: Vec<usize> = (0..links.len())
+        .map(|l| instruments.exchanges().iter().position(|e| e.value == EXCHANGES[l]).expect("every exchange label has an instrument"))
+        .collect();
+    let mut by_index = vec![Link::Healthy; links.len()];
+    for (label, idx) in ex_idx.iter().enumerate() {
+        by_index[*idx] = links[label];
+    }
+    let built = build_engine(&instruments, &by_index, trading);
+    let ins_idx: Vec<usize> = (0..defs.len())
+        .map(|k| built.engine.state.instruments.0.values().position(|s| s.instrument.name_internal.name().as_str() == format!("i{k}")).unwrap())
+        .collect();
+    // the kinds really are in the engine state
+    for (k, idx) in ins_idx.iter().enumerate() {
+        let kind = &built.engine.state.instruments.instrument_index(&InstrumentIndex(*idx)).instrument.kind;
+        let ok = match kinds[k] {
+            'P' | 'p' => matches!(kind, InstrumentKind::Perpetual(_)),
+            'F' => matches!(kind, InstrumentKind::Future(_)),
+            'O' => matches!(kind, InstrumentKind::Option(_)),
+            _ => matches!(kind, InstrumentKind::Spot),
+        };
+        assert!(ok, "instrument kind of i{k}");
+    }
+    World { built, ex_idx, ins_idx, defs, links, tick: 0 }
+}
+
+/// The engine type a `System` handle is parameterised with here (never run: the handle only needs its
+/// `feed_tx`; the commands it sends are processed by the case's own engine).
+type SysEngine = Engine<HistoricalClock, State, MultiExchangeTxMap<UnboundedTx<ExecutionRequest>>, DefaultStrategy<State>, DefaultRiskManager<State>>;
+
+struct Sys {
+    _rt: tokio::runtime::Runtime,
+    system: System<SysEngine, Event>,
+    feed_rx: UnboundedRx<Event>,
+}
+
+fn build_sys() -> Sys {
+    let rt = tokio::runtime::Builder::new_current_thread().build().expect("runtime");
+    let (feed_tx, feed_rx) = mpsc_unbounded::<Event>();
+    let engine = rt.spawn(std::future::pending::<(SysEngine, <SysEngine as Processor<Event>>::Audit)>());
+    let system = System {
+        engine,
+        handles: SystemAuxillaryHandles {
+            execution: ExecutionHandles { mock_exchanges: vec![], managers: vec![], account_to_engines: vec![] },
+            market_to_engine: rt.spawn(async {}),
+            account_to_engine: rt.spawn(async {}),
+        },
+        feed_tx,
+        audit: None,
+    };
+    Sys { _rt: rt, system, feed_rx }
+}
+
+fn run_case_cfg(case: &Case, lines: &mut Vec<String>) {
+    // a case without a `cfg` line is the shared protocol's, unchanged
+    if !case.ops.iter().any(|op| op[0] == "cfg") {
+        return vh::engine_proto::run_case(case, lines);
+    }
+    let mut world: Option<World> = None;
+    let mut algo = None;
+    let mut cfg = Cfg { kinds: None, system: false };
+    let mut sys: Option<Sys> = None;
+    for op in case.ops.iter() {
+        lines.push("@".into());
+        match op[0].as_str() {
+            "cfg" => match parse_cfg(&op[1..]) {
+                Some(c) => {
+                    if c.system && sys.is_none() {
+                        sys = Some(build_sys());
+                    }
+                    cfg = c;
+                    // a configuration line opens a new set-up: the next `init` builds its engine
+                    world = None;
+                    lines.push("cfg-set".into());
+                }
+                None => lines.push("bad-op".into()),
+            },
+            "init" => {
+                let w = match cfg.kinds.take() {
+                    Some(k) => {
+                        if op.len() < 5 || k.len() != op.len() - 5 {
+                            lines.push("bad-op".into());
+                            continue;
+                        }
+                        init_world_kinds(&op[1..], &k)
+                    }
+                    None => init_world(&op[1..]),
+                };
+                observe_state(&w, lines);
+                world = Some(w);
+                algo = None;
+            }
+            // before `init` (only reachable in hand-written / minimised cases): rejected, as in the driver
+            "algo" | "ev" if world.is_none() => lines.push("bad-op".into()),
+            "algo" => {
+                let w = world.as_ref().expect("init first");
+                algo = Some(parse_reqs(w, &op[1..]));
+                lines.push("algo-set".into());
+            }
+            "ev" => {
+                let w = world.as_mut().expect("init first");
+                if let (true, Some(sys)) = (cfg.system, sys.as_mut()) {
+                    if op.len() == 3 && (op[1] == "cancel_orders" || op[1] == "close_positions") {
+                        let filter = parse_filter(w, &op[2]);
+                        if op[1] == "cancel_orders" {
+                            sys.system.cancel_orders(filter);
+                        } else {
+                            sys.system.close_positions(filter);
+                        }
+                        let got: Vec<Event> = std::iter::from_fn(|| sys.feed_rx.rx.try_recv().ok()).collect();
+                        // the event the protocol is about to process (same tokens; the tick is restored)
+                        let tick = w.tick;
+                        let direct = match build_event(w, &op[1..]) {
+                            Built2::Event(e, _) => Some(e),
+                            _ => None,
+                        };
+                        w.tick = tick;
+                        lines.push(format!(
+                            "sysfeed {}",
+                            if got.is_empty() { "-".to_string() } else { got.iter().map(|e| event_digest(w, e)).collect::<Vec<_>>().join(" | ") }
+                        ));
+                        lines.push(format!("syseq {}", if got.len() == 1 && direct.as_ref() == got.first() { 1 } else { 0 }));
+                    }
+                }
+                run_event(w, &op[1..], algo.take(), lines);
+            }
+            other => panic!("bad op {other}"),
+        }
+    }
+}
+
 fn generate(seed: u64, n_cases: usize, tier: &str) {
     let mut out = Out::new();
     let mut rng = Rng::new(seed);
@@ -346,14 +622,22 @@ fn generate(seed: u64, n_cases: usize, tier: &str) {
     }
     for id in 0..n_cases {
         out.case(format!("r{id}"));
-        gen_case(&mut rng, &mut out, tier, None);
+        gen_case(&mut rng, &mut out, tier, None, None);
     }
     // input-domain classes, separately seeded so that the cases above stay as they were
     let mut drng = Rng::new(seed ^ 0xD0A1_19D0_A119);
     let extra = (n_cases / 8).max(if n_cases > 0 { 12 } else { 0 });
     for k in 0..extra {
         out.case(format!("d{k}"));
-        gen_case(&mut drng, &mut out, tier, Some(k as u64 % 6));
+        gen_case(&mut drng, &mut out, tier, Some(k as u64 % 6), None);
+    }
+    // configuration shapes (instrument kinds, commands through a `System` handle, degraded links), again
+    // separately seeded: `c<k>`
+    let mut crng = Rng::new(seed ^ 0xC0F1_19C0_F119);
+    let mut krng = Rng::new(seed ^ 0x5E70_19C0_F119);
+    for k in 0..extra {
+        out.case(format!("c{k}"));
+        gen_case(&mut crng, &mut out, tier, None, Some(&mut krng));
     }
     out.flush();
 }
@@ -362,7 +646,7 @@ fn main() {
     let a = args();
     match a.cmd.as_str() {
         "gen" => generate(a.seed, a.n, &a.tier),
-        "run" => run_cases(run_case),
+        "run" => run_cases(run_case_cfg),
         _ => {
             eprintln!("usage: c19 gen <seed> <n> <tier> | run < cases");
             std::process::exit(2)
